@@ -697,8 +697,12 @@ impl Compiler {
             catch_target: 0, // Will be patched
         });
 
-        // Compile body
-        self.compile_statement_impl(&for_of.body)?;
+        // Compile body (the iterator try handler is one more entry on the VM's try stack:
+        // loops, switches and try statements in the body must count it)
+        self.try_depth += 1;
+        let body_result = self.compile_statement_impl(&for_of.body);
+        self.try_depth -= 1;
+        body_result?;
 
         // Pop iterator try handler (normal completion, no exception)
         self.builder.emit(Op::PopIterTry);
